@@ -113,6 +113,7 @@ def alphabet(tier):
         c("create-name-" + tag, "CreateStateMachine", {"name": val, "roleArn": R1, "definition": S1}, VALIDATION)
         c("create-role-" + tag, "CreateStateMachine", {"name": "mc", "roleArn": val, "definition": S1}, VALIDATION)
         c("create-def-" + tag, "CreateStateMachine", {"name": "mc", "roleArn": R1, "definition": val}, VALIDATION)
+        c("create-type-" + tag, "CreateStateMachine", {"name": "mc", "roleArn": R1, "definition": S1, "type": val}, VALIDATION | {"StateMachineTypeNotSupported"})
         c("describe-arn-" + tag, "DescribeStateMachine", {"stateMachineArn": val}, VALIDATION)
         c("update-arn-" + tag, "UpdateStateMachine", {"stateMachineArn": val, "roleArn": R2}, VALIDATION)
         c("delete-arn-" + tag, "DeleteStateMachine", {"stateMachineArn": val}, VALIDATION)
